@@ -80,6 +80,7 @@ pub fn ref_plan(op: &Op, env: &Option<String>) -> Plan {
         keep_log: false,
         heap_perturb: 0,
         alloc_yield_mean: 0,
+        clock_step_ns: 0,
     }
 }
 
